@@ -59,6 +59,7 @@ type DeploySpec struct {
 	User     string            `json:"user,omitempty"`
 	All      bool              `json:"all,omitempty"`     // NodeFilter.All
 	AnyPod   bool              `json:"any_pod,omitempty"` // NodeFilter.Podname = "" (request still names Pod)
+	Image    string            `json:"image,omitempty"`   // "" = img:1; vengine.MissingImagePrefix... cannot be pulled anywhere
 }
 
 func (d DeploySpec) filterPod() string {
@@ -66,6 +67,13 @@ func (d DeploySpec) filterPod() string {
 		return ""
 	}
 	return d.Pod
+}
+
+func (d DeploySpec) image() string {
+	if d.Image == "" {
+		return "img:1"
+	}
+	return d.Image
 }
 
 // Options renders the DeployOptions.
@@ -76,7 +84,7 @@ func (d DeploySpec) Options() *types.DeployOptions {
 		Entrypoint:     &types.Entrypoint{Name: d.Entry, Commands: []string{"sleep", "1"}},
 		Podname:        d.Pod,
 		NodeFilter:     &types.NodeFilter{All: d.All, Podname: d.filterPod(), Includes: append([]string(nil), d.Includes...), Excludes: append([]string(nil), d.Excludes...), Labels: d.NLabels},
-		Image:          "img:1",
+		Image:          d.image(),
 		Count:          d.Count,
 		DeployStrategy: d.Strategy,
 		NodesLimit:     d.Limit,
